@@ -378,7 +378,6 @@ func c20Run(c *caseCtx) (res caseResult) {
 	return res
 }
 
-
 // c20Discovery: 2-4 real nodes find each other through zeroconf inside the child's
 // private network namespace; then one of them dies for real (provider and agent
 // stopped, listener closed). The survivors' providers learn it through their own
